@@ -884,7 +884,8 @@ func (lw *loopWorld) finish() {
 						lw.peer([]string{"peer", strconv.Itoa(op.obj), "write", "64"})
 					}
 				case "listener":
-					if round%4 == 0 {
+					// a connection the peer made and no accept has handed out is still owed to this accept: no new one
+					if round%4 == 0 && len(o.peerConns) <= len(o.accepted) {
 						lw.peer([]string{"peer", strconv.Itoa(op.obj), "connect"})
 					}
 				case "packet", "mpeer":
@@ -917,7 +918,13 @@ func (lw *loopWorld) finish() {
 		case "timer":
 			ready = time.Now().After(op.t0.Add(op.delay + 5*time.Millisecond))
 		case "read":
-			ready = waitReady(lw.rawFd(lw.objs[op.obj]), unix.POLLIN, 0) != 0
+			o := lw.objs[op.obj]
+			ready = waitReady(lw.rawFd(o), unix.POLLIN, 0) != 0
+			if o.kind == "listener" && len(o.sab) == 0 && len(o.peerConns) > len(o.accepted) {
+				// the kernel completed more connections to this listener than accepts have handed out (the backlog is far
+				// larger than a script): one of them belongs to this accept, wherever it went
+				ready = true
+			}
 		case "write":
 			ready = waitReady(lw.rawFd(lw.objs[op.obj]), unix.POLLOUT, 0) != 0
 		}
